@@ -1,6 +1,6 @@
 ------------------------------ MODULE MC_Crypt ------------------------------
 EXTENDS Crypt, Json
-CaseJson == [variant |-> variant, pwrel |-> pwrel, encMeta |-> encMeta, place |-> place, len |-> len, idc |-> idc, kind |-> kind, root |-> root,
+CaseJson == [variant |-> variant, pwrel |-> pwrel, encMeta |-> encMeta, place |-> place, len |-> len, idc |-> idc, kind |-> kind, root |-> root, dform |-> dform,
              ideal |-> Ideal, mech |-> answer]
 Emit == phase = "done" => PrintT(<<"CASE", ToJson(CaseJson)>>)
 =============================================================================
